@@ -167,13 +167,22 @@ CHECKS.append(
               "clauses, not equality with the W3C algorithm's hashes/paths.",
          note="Trusted: the RDF 1.2 canonical N-Quads escape table in rules/c06.py; sha2; audited panic table.",
          technique="static: switch-table/format-template extraction + taint of safeguard reads + dominator rules + panic audit"))
+CHECKS.append(
+    dict(id="C14", level="other", engine="E1+E3",
+         text="Comparator structure of ORDER BY: the per-key decision table of cmp_bindings_with (unbound first, DESC reverses only "
+              "this key, ties broken by the remaining keys), the total-by-construction discipline (a partial comparison falling back "
+              "to a different order is reported — one known finding on the unchanged tree), the datatype->parser table that gives "
+              "derived numeric types their value, operand order in the numeric coercion, and a panic audit of the comparator. Decides "
+              "these structural clauses, not the numeric values compared.",
+         note="Trusted: rustc MIR; std sort. Known finding: sparql_order_by's partial order with Term::cmp fallback (KNOWN_FINDINGS.txt).",
+         technique="static: decision-table extraction over MIR paths + flow rule on Option<Ordering> fallbacks + table agreement"))
 NOT_APPLICABLE = [
     dict(property_id="C17", reason="relativise/resolve inverse is an equation between runtime-computed strings "
          "(byte-offset arithmetic); no structural clause that is a genuine necessary condition without freezing the "
          "code; static analysis in reach cannot decide it"),
 ]
 # properties not yet wired in this commit are listed as not applicable *for now* by gen (see below)
-PENDING = [ "C14",
+PENDING = [
            ]
 for p in PENDING:
     if p not in [c["id"] for c in CHECKS]:
